@@ -344,3 +344,25 @@ prop("C20", shards=16, pkg="props_race", race=True, timeout=(1200, 7200),
      level_note="Trusted: porcupine v1.3.0, harness/ref/fifo, sync/atomic logical clock for call/return stamps. Wall-clock limits are "
                 "hang detectors applied only in states no later event can change. A rare interleaving may be missed; failures do "
                 "not shrink.")
+
+# ---- additions made while strengthening the checks against the seeded changes (rounds 1-3; DESIGN.md §11.4) ----
+# kept as addenda so that the original statement of each rule stays readable
+_RULE_ADDENDA = {
+    "C01": " Struct targets include named types with three and four levels of embedding (value and pointer) whose innermost struct has several fields.",
+    "C02": " The type universe contains embedding up to four levels deep with multi-field innermost structs, and omitempty on pointer/interface fields holding zero values.",
+    "C03": " Also: declared lengths far beyond the input (2^28..2^31-1) for the entry points that skip or capture without allocating (raw, SNBT, unknown field under a compound root); documents with a repeated key or a case-insensitive twin whose second value is longer; destinations reused for a second, longer document.",
+    "C04": " Floats include m x 10^e with one significant digit and |e| up to 300 (float32: 38), i.e. the values a shortest-form printer writes in exponent form.",
+    "C05": " WriteToBytes is run on a buffer pre-filled with a sentinel (nothing beyond the returned length may change) and on a buffer of exactly Len() bytes; decoder inputs are also delivered by readers that hand over the last byte together with io.EOF.",
+    "C06": " After Marshal a second, unrelated packet is marshalled and the first packet's Data must be unchanged; Strings include up to 32767 three-byte characters (98301 bytes).",
+    "C07": " Reject classes include a real zlib stream inflating to more than the limit and frames whose packet id uses a padded (non-minimal) VarInt; receivers are reused across frames of different kinds.",
+    "C10": " The IV is handed over as the first 16 bytes of a buffer with 0..200 bytes of spare capacity, and both directions may be created from that one slice before any data is processed.",
+    "C12": " C12Save builds two containers from the same palette and data slices, applies generated Set calls to the first and requires the second to keep the save form's reading.",
+    "C13": " Network mode also reads into a chunk that has already received another chunk with as many distinct states per section, then applies SetBlock calls (states of the earlier and the later chunk) and re-checks every position and BlockCount; save mode re-checks BlockCount after load and after further SetBlock calls.",
+    "C15": " Histories include refused over-limit writes (nothing may change, later writes must not damage the refused chunk); the last physical write of a prefix is also torn at every byte offset when it is <= 8 bytes long.",
+    "C16": " The client may move to a new request id before every command (step 0, +-1, 1000, 2^30): each response must arrive under the id of the command it answers; responses deliberately sent under a wrong id (delta incl. 256, 65536, MinInt32) must be refused.",
+    "C18": " Signatures issued (under the swapped services key) for a profile key that differs in one byte must be refused; profile keys of 0..1300 bytes incl. lengths = 55/56 mod 57 and > 768 bytes. The signed-message header used for genuine control signatures is detected on a short reference key (go-mc's or Java's), so a change of header does not raise an alarm.",
+    "C19": " Priorities are mostly -2..2 (ties) and sometimes the ends of the int range (MinInt, MaxInt, +-2^31, +-2^62); up to 40 handlers.",
+    "C20": " C20Pools also lets every goroutine decode documents into ONE shared struct type using key spellings (upper/lower case) nobody has used before; a field that gets set must hold that goroutine's value. Queue plans include quotas per consumer and a drain phase before Close.",
+}
+for _pid, _txt in _RULE_ADDENDA.items():
+    PROPS[_pid]["rule"] = PROPS[_pid].get("rule", "") + _txt
